@@ -19,7 +19,16 @@ MAPS = {"typescript": [{}, {}, {"Url": "string"}, {"Vec<u8>": "Uint8Array"}, {"O
                    {"[u8]": "bytes", "&[u8]": "bytes", "Option<u8>": "bytes", "Option<OffsetDateTime>": "datetime",
                     "Vec<String>": "datetime", "HashMap<String,String>": "bytes"}],
         "scala": [{}, {}, {"Url": "String"}, {"OffsetDateTime": "String"}, {"Foo": "FooMapped", "Bar": "Map[String, Any]"},
-                  {"Vec<u8>": "Array[Byte]", "u8": "Short", "Option<String>": "Maybe"}]}
+                  {"Vec<u8>": "Array[Byte]", "u8": "Short", "Option<String>": "Maybe"}],
+        "swift": [{}, {}, {"Url": "URL"}, {"OffsetDateTime": "Date"}, {"Url": "URL", "OffsetDateTime": "Date", "Foo": "FooMapped"},
+                  {"T": "Mapped", "Wrapper": "Box", "Vec<u8>": "Data"}, {"Pair": "Tuple2", "Id": "UUID", "String": "NSString", "()": "Void"}]}
+SWIFT_DECS = [[], [], [], ["Equatable"], ["Sendable", "Hashable"], ["Codable"], ["Equatable", "Equatable"], ["String"], [" Padded "]]
+SWIFT_GCS = [[], [], [], ["Equatable"], ["Sendable & Identifiable"], ["Hashable&Codable", " Equatable "], ["Z", "A & M", "A"], [""], ["Equatable & "]]
+SWIFT_CVC = [[], [], ["Equatable"], ["Sendable", "Hashable"], ["Codable"], ["Equatable", "Codable", "Equatable"]]
+import gen as _gen
+if lang == "swift":
+    # Swift keywords after camel-casing, leading digits after `_`, empty camel form
+    _gen.VARIANT_WORDS.extend(["Default", "Case", "In", "Protocol", "Is", "Do", "_1", "_2nd", "__", "Type", "Any"])
 MULTI = "--multi" in sys.argv
 from gen import TYPE_WORDS
 for i in range(N):
@@ -28,6 +37,11 @@ for i in range(N):
            "package": "com.example.pkg", "module_name": rng.choice(["mod", "", "Other"]), "prefix": rng.choice(["", "", "OP", "Core_"])}
     if lang == "kotlin":
         cfg["package"] = rng.choice(["com.example.pkg", "com.example.pkg", "", "x"])
+    if lang == "swift":
+        cfg["prefix"] = rng.choice(["", "", "OP", "Core_", "`", "Ty", "Sel"])
+        cfg["default_decorators"] = rng.choice(SWIFT_DECS)
+        cfg["default_generic_constraints"] = rng.choice(SWIFT_GCS)
+        cfg["codablevoid_constraints"] = rng.choice(SWIFT_CVC)
     if lang == "scala":
         cfg["package"] = rng.choice(["com.example.pkg"] * 6 + ["pkg", "a.b", "trailing.", ".leading", "x..y", ".", ""])
     if not MULTI:
